@@ -1,6 +1,7 @@
 //! mon: one sub-command per property; each invocation is one single-threaded shard.
 mod c01;
 mod c05;
+mod c06;
 mod c10;
 mod c11;
 mod common;
@@ -15,6 +16,7 @@ fn main() {
     common::with_big_stack(move || match a.prop.as_str() {
         "c01" => c01::run(&a),
         "c05" => c05::run(&a),
+        "c06" => c06::run(&a),
         "c10" => c10::run(&a),
         "c11" => c11::run(&a),
         other => {
